@@ -124,6 +124,15 @@ def _structure(body: List[ast.stmt]) -> List[ast.stmt]:
                 return out
             out.append(st)
             continue
+        if isinstance(st, ast.Try) and _has_return([st]) and rest and not st.finalbody and not _has_return(st.body) and not _has_return(st.orelse) \
+                and st.handlers and all(_always_leaves(h.body) for h in st.handlers):
+            # every handler leaves: what follows the statement runs exactly when the body (and else part) completed, i.e. it is the tail of the else part
+            st = ast.copy_location(ast.Try(body=st.body, handlers=st.handlers, orelse=list(st.orelse) + list(rest), finalbody=[]), st)
+            rest = []
+            nt = ast.Try(body=st.body, handlers=[ast.copy_location(ast.ExceptHandler(type=h.type, name=h.name, body=_structure(h.body)), h) for h in st.handlers],
+                         orelse=_structure(st.orelse), finalbody=[])
+            out.append(ast.copy_location(nt, st))
+            return out
         if isinstance(st, ast.Try) and _has_return([st]):
             # a try statement in tail position whose returns are in tail position of its parts: `return e` inside the try body stays inside it
             if rest or _has_return(st.finalbody) or (st.orelse and _always_leaves(st.body)):
@@ -202,8 +211,14 @@ def _generator_skeleton(fn: ast.FunctionDef) -> Optional[ast.FunctionDef]:
 
 def _inlinable(fn: ast.FunctionDef, method: bool = False) -> Optional[List[ast.stmt]]:
     decs = [ast.unparse(d) for d in fn.decorator_list]
-    if (decs and not (method and decs in (["staticmethod"], ["classmethod"]))) or fn.args.vararg or fn.args.kwarg or fn.args.posonlyargs:
+    if (decs and not (method and decs in (["staticmethod"], ["classmethod"]))) or fn.args.kwarg or fn.args.posonlyargs:
         return None
+    if fn.args.vararg is not None:
+        # `*rest` is fine when the body only ever spreads it into calls again (`mode_cls(*rest)`): the call site's arguments are written there
+        va = fn.args.vararg.arg
+        spreads = {id(x.value) for c in ast.walk(fn) if isinstance(c, ast.Call) for x in c.args if isinstance(x, ast.Starred) and isinstance(x.value, ast.Name) and x.value.id == va}
+        if any(isinstance(x, ast.Name) and x.id == va and id(x) not in spreads for b in fn.body for x in ast.walk(b)) or fn.args.kwonlyargs:
+            return None
     for d in fn.args.defaults + [k for k in fn.args.kw_defaults if k is not None]:
         if not isinstance(d, ast.Constant):
             return None
@@ -251,6 +266,52 @@ class _Subst(ast.NodeTransformer):
         return node
 
 
+def _only_called(body: List[ast.stmt], p: str, lam: ast.Lambda) -> bool:
+    """every use of parameter p in the helper body is a call `p(a1, ..)` with as many plain positional arguments (names / constants) as the lambda has
+    plain parameters"""
+    la = lam.args
+    if la.vararg or la.kwarg or la.kwonlyargs or la.posonlyargs or la.defaults:
+        return False
+    if any(isinstance(x, (ast.Lambda, ast.NamedExpr, ast.Yield, ast.YieldFrom, ast.Await)) for x in ast.walk(lam.body)):
+        return False
+    uses = [x for st in body for x in ast.walk(st) if isinstance(x, ast.Name) and x.id == p]
+    calls = [x for st in body for x in ast.walk(st) if isinstance(x, ast.Call) and isinstance(x.func, ast.Name) and x.func.id == p]
+    if not uses or len(uses) != len(calls):
+        return False
+    return all(not c.keywords and len(c.args) == len(la.args) and all(isinstance(a, (ast.Name, ast.Constant)) for a in c.args) for c in calls)
+
+
+class _SpreadStars(ast.NodeTransformer):
+    """`f(*(a, b))` is `f(a, b)`"""
+    def visit_Call(self, n: ast.Call):
+        self.generic_visit(n)
+        if any(isinstance(a, ast.Starred) and isinstance(a.value, ast.Tuple) for a in n.args):
+            new_args: List[ast.expr] = []
+            for a in n.args:
+                if isinstance(a, ast.Starred) and isinstance(a.value, ast.Tuple):
+                    new_args.extend(a.value.elts)
+                else:
+                    new_args.append(a)
+            n.args = new_args
+        return n
+
+
+class _BetaCalls(ast.NodeTransformer):
+    """`(lambda a: E)(x)` with plain names / constants as arguments is E with them in place"""
+    def visit_Call(self, n: ast.Call):
+        self.generic_visit(n)
+        f = n.func
+        if isinstance(f, ast.Lambda) and not n.keywords and len(n.args) == len(f.args.args) and all(isinstance(a, (ast.Name, ast.Constant)) for a in n.args) \
+                and not (f.args.defaults or f.args.vararg or f.args.kwarg or f.args.kwonlyargs or f.args.posonlyargs):
+            m = {q.arg: a for q, a in zip(f.args.args, n.args)}
+
+            class S(ast.NodeTransformer):
+                def visit_Name(self, x: ast.Name):
+                    return ast.copy_location(copy.deepcopy(m[x.id]), x) if x.id in m and isinstance(x.ctx, ast.Load) else x
+            return ast.copy_location(S().visit(copy.deepcopy(f.body)), n)
+        return n
+
+
 def _bind(fn: ast.FunctionDef, call: ast.Call, recv: Optional[ast.expr] = None) -> Optional[Dict[str, ast.expr]]:
     params = [a.arg for a in fn.args.args] + [a.arg for a in fn.args.kwonlyargs]
     pos = [a.arg for a in fn.args.args]
@@ -258,9 +319,15 @@ def _bind(fn: ast.FunctionDef, call: ast.Call, recv: Optional[ast.expr] = None) 
         if not pos:
             return None
         call = ast.Call(func=call.func, args=[recv] + list(call.args), keywords=call.keywords)
-    if any(isinstance(a, ast.Starred) for a in call.args) or any(k.arg is None for k in call.keywords) or len(call.args) > len(pos):
+    if any(isinstance(a, ast.Starred) for a in call.args) or any(k.arg is None for k in call.keywords) or (len(call.args) > len(pos) and fn.args.vararg is None):
         return None
     got: Dict[str, ast.expr] = {}
+    if fn.args.vararg is not None:
+        extra = list(call.args[len(pos):])
+        if not all(isinstance(a, (ast.Name, ast.Constant)) for a in extra):
+            return None
+        got[fn.args.vararg.arg] = ast.Tuple(elts=extra, ctx=ast.Load())
+        call = ast.Call(func=call.func, args=list(call.args[:len(pos)]), keywords=call.keywords)
     for p, a in zip(pos, call.args):
         got[p] = a
     for k in call.keywords:
@@ -339,12 +406,40 @@ def _free_globals(fn: ast.FunctionDef) -> Set[str]:
     return {x.id for b in fn.body for x in ast.walk(b) if isinstance(x, ast.Name) and isinstance(x.ctx, ast.Load)} - params - stores - set(dir(builtins))
 
 
+FACTORIES: Dict[Tuple[str, str], Tuple[ast.FunctionDef, ast.FunctionDef]] = {}
+
+
+def _closure_factory(fn: ast.FunctionDef) -> Optional[ast.FunctionDef]:
+    """`def make(a, b): def g(x): ...; return g` - a function whose whole body defines one closure and returns it: the closure"""
+    if fn.decorator_list or fn.args.vararg or fn.args.kwarg or fn.args.posonlyargs:
+        return None
+    for d in fn.args.defaults + [k for k in fn.args.kw_defaults if k is not None]:
+        if not isinstance(d, ast.Constant):
+            return None
+    body = [st for st in fn.body if not (isinstance(st, ast.Expr) and isinstance(st.value, ast.Constant))]
+    if len(body) != 2 or not isinstance(body[0], ast.FunctionDef) or not (isinstance(body[1], ast.Return) and isinstance(body[1].value, ast.Name) and body[1].value.id == body[0].name):
+        return None
+    g = body[0]
+    if g.decorator_list or any(isinstance(x, (ast.Nonlocal, ast.Global, ast.Yield, ast.YieldFrom, ast.Await)) for x in ast.walk(g)):
+        return None
+    params = {a.arg for a in fn.args.args + fn.args.kwonlyargs}
+    # the closure must not re-bind what it captured, nor shadow it by a parameter of its own
+    if any(isinstance(x, ast.Name) and x.id in params and isinstance(x.ctx, (ast.Store, ast.Del)) for x in ast.walk(g)):
+        return None
+    if params & {a.arg for a in ast.walk(g.args) if isinstance(a, ast.arg)}:
+        return None
+    if any(isinstance(x, ast.Name) and x.id == g.name for st in g.body for x in ast.walk(st)):
+        return None
+    return g
+
+
 def package_helpers(parsed: List[Tuple[str, ast.Module]], ambiguous: Set[str]):
     """(module-level helpers by (module short name, function name), unique new methods by name) over the whole package"""
     ref = reference_functions()
     funcs: Dict[Tuple[str, str], Tuple[ast.FunctionDef, List[ast.stmt]]] = {}
     meths: Dict[str, Tuple[str, ast.FunctionDef, List[ast.stmt]]] = {}
     ref_names = {r.split(".")[-1] for r in ref if "." in r.split(":")[-1]}
+    FACTORIES.clear()
     for module, tree in parsed:
         for st in tree.body:
             if isinstance(st, ast.FunctionDef) and f"{module}:{st.name}" not in ref:
@@ -352,6 +447,8 @@ def package_helpers(parsed: List[Tuple[str, ast.Module]], ambiguous: Set[str]):
                 b = _inlinable(st)
                 if b is not None:
                     funcs[(module, st.name)] = (st, b)
+                elif _closure_factory(st) is not None:
+                    FACTORIES[(module, st.name)] = (st, _closure_factory(st))  # type: ignore[assignment]
         for c in ast.walk(tree):
             if isinstance(c, ast.ClassDef):
                 for st in c.body:
@@ -406,6 +503,25 @@ class Inliner:
                         if k in pkg_funcs and (a.asname or a.name) not in self.helpers and self._namespace_ok(pkg_funcs[k][0], tgt):
                             self.helpers[a.asname or a.name] = pkg_funcs[k]
                             self.foreign[id(pkg_funcs[k][0])] = tgt
+        # closure factories (own and imported ones): `f = make(a, b)` becomes the local function the factory would have returned
+        self.factories: Dict[str, Tuple[ast.FunctionDef, ast.FunctionDef]] = {}
+        for st in tree.body:
+            if isinstance(st, ast.FunctionDef) and (module, st.name) in FACTORIES and FACTORIES[(module, st.name)][0] is st:
+                self.factories[st.name] = FACTORIES[(module, st.name)]
+        if FACTORIES:
+            base = module.split(".") if module else []
+            if not is_package and base:
+                base = base[:-1]
+            for st in tree.body:
+                if isinstance(st, ast.ImportFrom) and st.level >= 1:
+                    b_ = base[: len(base) - (st.level - 1)] if st.level > 1 else list(base)
+                    tgt = ".".join(b_ + (st.module.split(".") if st.module else []))
+                    for a in st.names:
+                        k = (tgt, a.name)
+                        if k in FACTORIES and (a.asname or a.name) not in self.factories and self._namespace_ok(
+                                FACTORIES[k][0], tgt, _free_globals(FACTORIES[k][1]) - {x.arg for x in FACTORIES[k][0].args.args + FACTORIES[k][0].args.kwonlyargs}):
+                            self.factories[a.asname or a.name] = FACTORIES[k]
+                            self.foreign[id(FACTORIES[k][0])] = tgt
         # new methods, callable as self.m(...) / cls.m(...) from methods of the same class when no class of this module overrides them
         self.methods: Dict[Tuple[str, str], Tuple[ast.FunctionDef, List[ast.stmt]]] = {}
         classes = [st for st in ast.walk(tree) if isinstance(st, ast.ClassDef)]
@@ -450,21 +566,32 @@ class Inliner:
         self.inlined: List[str] = []
         self.removed: List[str] = []
 
-    def _namespace_ok(self, fn: ast.FunctionDef, src_module: str) -> bool:
+    def _namespace_ok(self, fn: ast.FunctionDef, src_module: str, names: Optional[Set[str]] = None) -> bool:
         """every global name the foreign helper's body uses denotes the same thing here, or is unbound here (then the import is injected)"""
         src = self.pkg_bindings.get(src_module)
         if src is None:
             return False
-        for nm in _free_globals(fn):
+        for nm in (_free_globals(fn) if names is None else names):
             theirs = src.get(nm)
             if theirs is None:
                 return False  # not a builtin, not bound at module level there: something this does not model
             ours = self.mine.get(nm)
             if ours is None:
                 self.inject.setdefault(nm, theirs)
-            elif ours != theirs:
+            elif self._origin(ours) != self._origin(theirs):
                 return False
         return True
+
+    def _origin(self, b: Tuple[str, ...]) -> Tuple[str, ...]:
+        """a package binding followed through re-exports (`from ..jws import CompactSignature` is rfc7515.model's class) to the module that defines the name"""
+        seen = set()
+        while b and b[0] == "pkg" and b not in seen:
+            seen.add(b)
+            nxt = self.pkg_bindings.get(b[1], {}).get(b[2])
+            if nxt is None or nxt == b or nxt[0] != "pkg" or (nxt[1] == b[1] and nxt[2] == b[2]):
+                break
+            b = nxt
+        return b
 
     def _callee(self, call: ast.Call) -> Optional[Tuple[ast.FunctionDef, List[ast.stmt], Optional[ast.expr]]]:
         """(function, structured body, receiver expression to bind to its first parameter or None)"""
@@ -528,6 +655,8 @@ class Inliner:
         if id(fn) in self.foreign:
             _tag(ecopy, self.foreign[id(fn)])
         new = _Subst(got, {}).visit(ecopy)
+        if fn.args.vararg is not None:
+            new = _SpreadStars().visit(new)
         self.inlined.append(fn.name)
         return new
 
@@ -624,6 +753,10 @@ class Inliner:
                 mapping[p] = a  # a caller's local cannot be re-bound by the spliced body (its own locals are renamed apart)
             elif _pure(a) and p not in assigned and _quiet(fn):
                 mapping[p] = a  # the body stores nothing and calls nothing that could change what the attribute chain reads
+            elif fn.args.vararg is not None and p == fn.args.vararg.arg and p not in assigned:
+                mapping[p] = a  # the tuple of the remaining (plain) arguments, spread again where the body spreads it
+            elif isinstance(a, ast.Lambda) and p not in assigned and _only_called(body, p, a):
+                mapping[p] = a  # a lambda handed to a helper that only calls it: `(lambda: E)()` at each call, reduced to E below
             else:
                 rename[p] = p + tag
                 pre.append(ast.copy_location(ast.Assign(targets=[ast.Name(id=p + tag, ctx=ast.Store())], value=a, lineno=call.lineno), call))
@@ -684,6 +817,10 @@ class Inliner:
             for st_ in body:
                 _tag(st_, self.foreign[id(fn)])
         res = conv(body)
+        if any(isinstance(a_, ast.Lambda) for a_ in mapping.values()):
+            res = [_BetaCalls().visit(s_) for s_ in res]
+        if fn.args.vararg is not None:
+            res = [_SpreadStars().visit(s_) for s_ in res]
         if not _always_leaves(body):
             # falling off the end returns None: returns are in tail position, so the value is supplied at every fall-through tail
             if as_return:
@@ -717,6 +854,9 @@ class Inliner:
                 h.body = self.process_block(h.body)
         if isinstance(st, (ast.FunctionDef, ast.AsyncFunctionDef, ast.ClassDef)):
             return [st]
+        fd = self._factory_to_def(st)
+        if fd is not None:
+            return [fd]
         lp = self._comp_to_loop(st)
         if lp is not None:
             return self.process_block(lp)
@@ -770,6 +910,76 @@ class Inliner:
                     return self.process_block(sp) + self.process_stmt(st)
             break  # only the first head field is evaluated first
         return [st]
+
+    def _factory_to_def(self, st: ast.stmt) -> Optional[ast.stmt]:
+        """`f = make(a, b)` with a new closure factory `make`: the definition `def f(<closure parameters>): <closure body>` with the factory's
+        parameters replaced by the arguments - names the caller never re-binds, or constants - which is the function object the call returns"""
+        if isinstance(st, ast.Assign) and len(st.targets) == 1 and isinstance(st.targets[0], ast.Name):
+            tgt, val = st.targets[0], st.value
+        elif isinstance(st, ast.AnnAssign) and isinstance(st.target, ast.Name) and st.value is not None:
+            tgt, val = st.target, st.value
+        else:
+            return None
+        if self.cur_fn is not None and isinstance(val, ast.Call) and not val.keywords and val.args and isinstance(val.args[0], ast.Name) and val.args[0].id in self.helpers \
+                and ((isinstance(val.func, ast.Name) and self.mine.get(val.func.id) == ("ext", "functools.partial"))
+                     or (isinstance(val.func, ast.Attribute) and isinstance(val.func.value, ast.Name) and val.func.attr == "partial" and self.mine.get(val.func.value.id) == ("ext", "functools"))):
+            # `f = partial(helper, a, b)`: the local function `def f(<the remaining parameters>): return helper(a, b, <them>)`
+            hf, _hb = self.helpers[val.args[0].id]
+            bound = val.args[1:]
+            pos = hf.args.args
+            if hf.args.vararg or hf.args.kwarg or hf.args.posonlyargs or hf.args.kwonlyargs or len(bound) > len(pos) or any(isinstance(a, ast.Starred) for a in bound):
+                return None
+            rebound = {x.id for x in ast.walk(self.cur_fn) if isinstance(x, ast.Name) and isinstance(x.ctx, (ast.Store, ast.Del))}
+            if any(not (isinstance(a, ast.Constant) or (isinstance(a, ast.Name) and a.id not in rebound)) for a in bound):
+                return None
+            rest = pos[len(bound):]
+            if {a.arg for a in rest} & {a.id for a in bound if isinstance(a, ast.Name)}:
+                return None
+            if sum(1 for x in ast.walk(self.cur_fn) if isinstance(x, ast.Name) and x.id == tgt.id and isinstance(x.ctx, (ast.Store, ast.Del))) != 1:
+                return None
+            nd = len(hf.args.defaults)
+            defaults = [d for a, d in zip(pos[len(pos) - nd:], hf.args.defaults) if a in rest] if nd else []
+            if any(not isinstance(d, ast.Constant) for d in defaults):
+                return None
+            call = ast.Call(func=ast.Name(id=val.args[0].id, ctx=ast.Load()), args=[copy.deepcopy(a) for a in bound] + [ast.Name(id=a.arg, ctx=ast.Load()) for a in rest], keywords=[])
+            new = ast.FunctionDef(name=tgt.id, args=ast.arguments(posonlyargs=[], args=[ast.arg(arg=a.arg, annotation=None) for a in rest], vararg=None, kwonlyargs=[], kw_defaults=[],
+                                                                   kwarg=None, defaults=[copy.deepcopy(d) for d in defaults]),
+                                  body=[ast.Return(value=call)], decorator_list=[], returns=None, type_comment=None)
+            ast.copy_location(new, st)
+            ast.fix_missing_locations(new)
+            new.body = self.process_block(new.body)
+            return new
+        if not (isinstance(val, ast.Call) and isinstance(val.func, ast.Name) and val.func.id in self.factories) or self.cur_fn is None:
+            return None
+        fac, g = self.factories[val.func.id]
+        got = _bind(fac, val)
+        if got is None:
+            return None
+        rebound = {x.id for x in ast.walk(self.cur_fn) if isinstance(x, ast.Name) and isinstance(x.ctx, (ast.Store, ast.Del))}
+        for a in got.values():
+            if isinstance(a, ast.Constant):
+                continue
+            if not (isinstance(a, ast.Name) and a.id not in rebound):
+                return None
+        # the closure's own names must not capture a caller name that is substituted in
+        own = {x.id for x in ast.walk(g) if isinstance(x, ast.Name) and isinstance(x.ctx, ast.Store)} | {a.arg for a in ast.walk(g.args) if isinstance(a, ast.arg)}
+        if own & {a.id for a in got.values() if isinstance(a, ast.Name)}:
+            return None
+        if sum(1 for x in ast.walk(self.cur_fn) if isinstance(x, ast.Name) and x.id == tgt.id and isinstance(x.ctx, (ast.Store, ast.Del))) != 1:
+            return None
+        new = copy.deepcopy(g)
+        if id(fac) in self.foreign:
+            _tag(new, self.foreign[id(fac)])
+        new.name = tgt.id
+        new.returns = None
+        for a_ in ast.walk(new.args):
+            if isinstance(a_, ast.arg):
+                a_.annotation = None  # (names of the factory's module; the typed layer works from the source as written)
+        new.body = [_Subst(got, {}).visit(b) for b in new.body]
+        ast.copy_location(new, st)
+        ast.fix_missing_locations(new)
+        self.inlined.append(fac.name)
+        return new
 
     _CONSUMERS = ("list", "tuple", "sorted", "set", "frozenset", "dict", "extend", "join", "update")
 
@@ -866,8 +1076,8 @@ class Inliner:
         return None
 
     def run(self) -> ast.Module:
-        nested = any(isinstance(y, ast.FunctionDef) for x in ast.walk(self.tree) if isinstance(x, ast.FunctionDef) for y in x.body)
-        if not self.helpers and not self.methods and not self.unique_methods and not self.unique_static and not nested and not self.gen_helpers and not self.gen_methods:
+        nested = any(isinstance(y, ast.FunctionDef) and y is not x for x in ast.walk(self.tree) if isinstance(x, ast.FunctionDef) for y in ast.walk(x))
+        if not self.helpers and not self.methods and not self.unique_methods and not self.unique_static and not self.factories and not nested and not self.gen_helpers and not self.gen_methods:
             return self.tree
 
         def visit(body: List[ast.stmt], cname: Optional[str]) -> None:
@@ -882,7 +1092,24 @@ class Inliner:
                     # a closure defined in the body and only ever called there by name is a helper of this one function: its free names are
                     # read when it runs, which is where the spliced copy reads them
                     local: Dict[str, Tuple[ast.FunctionDef, List[ast.stmt]]] = {}
-                    for st in node.body:
+                    nested_defs: List[ast.FunctionDef] = []
+
+                    def collect(stmts: List[ast.stmt]) -> None:
+                        for st_ in stmts:
+                            if isinstance(st_, ast.FunctionDef):
+                                nested_defs.append(st_)
+                                continue
+                            if isinstance(st_, (ast.ClassDef, ast.AsyncFunctionDef)):
+                                continue
+                            for fld_ in ("body", "orelse", "finalbody"):
+                                b_ = getattr(st_, fld_, None)
+                                if isinstance(b_, list) and b_ and isinstance(b_[0], ast.stmt):
+                                    collect(b_)
+                            if isinstance(st_, ast.Try):
+                                for h_ in st_.handlers:
+                                    collect(h_.body)
+                    collect(node.body)
+                    for st in nested_defs:
                         if isinstance(st, ast.FunctionDef) and st.name not in self.helpers:
                             b = _inlinable(st)
                             uses = [x for x in ast.walk(node) if isinstance(x, ast.Name) and x.id == st.name]
@@ -896,7 +1123,11 @@ class Inliner:
                     for nm, (lf, _b) in local.items():
                         del self.helpers[nm]
                         if not any(isinstance(x, ast.Name) and x.id == nm for x in ast.walk(node)):
-                            node.body = [st for st in node.body if st is not lf] or [ast.Pass()]
+                            for o_ in ast.walk(node):
+                                for fld_ in ("body", "orelse", "finalbody"):
+                                    b_ = getattr(o_, fld_, None)
+                                    if isinstance(b_, list) and any(x is lf for x in b_):
+                                        b_[:] = [x for x in b_ if x is not lf] or [ast.Pass()]
                     self.cls_stack.pop()
 
         visit(self.tree.body, None)
